@@ -24,6 +24,7 @@ META = {
     ],
     "floor_evaluations": {"quick": 1500, "thorough": 50000},
     "floor_nontrivial": {"quick": 500, "thorough": 15000},
+    "threads": 3,
     "anchors": ["func_adl/util_ast.py"],
 }
 
